@@ -27,14 +27,15 @@ ASSUMPTIONS = ["removals are enabled only for contained objects; replace_lanelet
 IDS = {"L1": [1], "L2": [2], "L3": [3], "S": [10], "T": [11], "I": [20, 21], "O1": [30], "O2": [31], "O3": [32], "O4": [33],
        "X": [1], "Y": [30], "J": [40, 2], "S2": [10],
        "Z": [32], "D": [10], "P": [11], "E": [20], "M": [33],
-       "K": [40, 41, 40]}       # an intersection one of whose incomings carries the intersection's own id: never addable, and it must not leave ids behind
+       "K": [40, 41, 40], "S3": [3]}       # an intersection one of whose incomings carries the intersection's own id: never addable, and it must not leave ids behind
 KIND = {"L1": "lanelet", "L2": "lanelet", "L3": "lanelet", "S": "sign", "T": "light", "I": "intersection", "O1": "static",
         "O2": "dynamic", "O3": "environment", "O4": "phantom", "X": "static", "Y": "sign", "J": "intersection", "S2": "sign",
-        "Z": "light", "D": "dynamic", "P": "phantom", "E": "environment", "M": "lanelet", "K": "intersection"}
+        "Z": "light", "D": "dynamic", "P": "phantom", "E": "environment", "M": "lanelet", "K": "intersection", "S3": "sign"}
 REFS = {"L2": {"sign": {10}, "light": {11}}}
 OBST = ["O1", "O2", "O3", "O4", "X", "D", "P", "E"]
 SINGLES = ["L1", "L2", "S", "T", "I", "O1", "O2", "O3", "O4", "X", "Y", "J", "Z", "D", "P", "E", "M", "K"]
-NETS = {"NA": ["L1", "L2", "S", "T", "I"], "NB": ["L3", "S2"]}
+NETS = {"NA": ["L1", "L2", "S", "T", "I"], "NB": ["L3", "S2"],
+        "NC": ["L3", "S3"]}        # a network two of whose own members (of different kinds) carry the same id: never addable
 PAIRS = [["O1", "O2"], ["L1", "L2"], ["S", "T"], ["O3", "X"]]
 
 
@@ -77,6 +78,8 @@ def make(name):
         return Intersection(20, [IntersectionIncomingElement(21, {1}, set(), {2}, set())])
     if name == "J":
         return Intersection(40, [IntersectionIncomingElement(2, {1}, set(), set(), set())])
+    if name == "S3":
+        return TrafficSign(3, [TrafficSignElement(TrafficSignIDGermany.STOP, [])], set(), np.array([2.0, 2.0]))
     if name == "K":
         return Intersection(40, [IntersectionIncomingElement(41, {1}, set(), set(), set()), IntersectionIncomingElement(40, {1}, set(), set(), set())])
     st = InitialState(time_step=0, position=np.array([5.0, 0.0]), orientation=0.0, velocity=1.0, acceleration=0.0,
@@ -154,9 +157,8 @@ def enabled(model):
     for pr in PAIRS:
         if m_can_add(present, pr):
             ops.append(["addlist", pr])
-    if "L2" in present:
-        for n in ("S", "T"):
-            ops.append(["addref", n])
+    for n in ("S", "T"):
+        ops.append(["addref", n])        # (also when the named lanelet 2 is not in the scenario: the element is added all the same)
     obst = [n for n in OBST if n in present]
     for n in obst:
         ops.append(["rm_obstacle", n])
@@ -179,8 +181,13 @@ def enabled(model):
     obstacle_ids = set(i for n in obst for i in IDS[n])
     for net in NETS:
         ids = set(i for n in NETS[net] for i in IDS[n])
-        if not (ids & obstacle_ids):
+        if not (ids & obstacle_ids) and net != "NC":
             ops.append(["replace", net])
+    if not any(KIND[n] in ("lanelet", "sign", "light", "intersection") for n in present):
+        # a whole network added to a scenario that has none (obstacles may be there): rejected as a whole, with nothing left behind, when one of
+        # its ids is in use or occurs twice inside the network
+        for net in NETS:
+            ops.append(["addnet", net])
     # removal of an object that is NOT contained while its id is in use by a contained object of any kind: whatever the call does (warn,
     # raise), the scenario and its id pool must stay as they are
     # (removal is by id: an object of the same kind with the same id IS the contained object, so only cross-kind id collisions count as absent)
@@ -227,6 +234,8 @@ def model_step(model, op):
     if k == "addlist":
         p.update(op[1]); return "ok", (frozenset(p), ngen, gen)
     if k == "addnet":
+        if not m_can_add(present, NETS[op[1]]):
+            return "ValueError", model
         p.update(NETS[op[1]]); return "ok", (frozenset(p), ngen, gen)
     if k == "rm_obstacle":
         p.discard(op[1]); return "ok", (frozenset(p), ngen, gen)
@@ -388,11 +397,11 @@ def check(live, model, model2, op, obs, pre):
                     f"{op}: {obs[1]}; contained {got_ids}"))
         return out
     if exp == "ValueError" and obs[0] == "ok":
-        out.append((f"C09|{opname}|add-accepted-on-collision:{KIND[op[1]]}", f"{op} accepted; contained {got_ids}"))
+        out.append((f"C09|{opname}|add-accepted-on-collision:{KIND.get(op[1], 'network')}", f"{op} accepted; contained {got_ids}"))
         return out
     if obs[0] == "ValueError":
         if snapshot(live) != pre:
-            out.append((f"C09|{opname}|failed-add-mutated:{KIND[op[1]]}", f"{op}: before {pre} after {snapshot(live)}"))
+            out.append((f"C09|{opname}|failed-add-mutated:{KIND.get(op[1], 'network')}", f"{op}: before {pre} after {snapshot(live)}"))
         return out
     if got_ids != model_ids(model2[0]):
         out.append((f"C09|{opname}|contained-objects-differ-from-model",
